@@ -9,34 +9,57 @@ goroutines are observed by the simulator (virtual time, goroutine accounting), n
 -/
 namespace Swim.Lifecycle
 
-/-- **api_total.** Over every sequence of public calls and ageing steps, the only panic is the
-documented Leave-after-Shutdown, and no call blocks. -/
-theorem C20_api_total (calls : List (Option Call)) (s : Stage) :
+theorem next_selfListed (s : Stage) (c : Call) : (next s c).selfListed = s.selfListed := by
+  cases s <;> cases c <;> rfl
+
+theorem age_selfListed (s : Stage) : (age s).selfListed = s.selfListed := by
+  cases s <;> rfl
+
+/-- **api_total** (partial: stages in which the node is a member of itself, i.e. its own record was
+admitted at creation). Over every sequence of public calls and ageing steps, the only panic is the
+documented Leave-after-Shutdown, and no call blocks. The full statement (every stage) is false on
+the current code: see `C20_api_total_fails_when_self_denied`. -/
+theorem C20_api_total_partial (calls : List (Option Call)) (s : Stage) (hs : s.selfListed = true) :
     ∀ c ∈ (calls.foldl (fun (acc : Stage × List Outcome) oc => match oc with
         | none => (age acc.1, acc.2)
         | some c => (next acc.1 c, acc.2 ++ [outcome acc.1 c])) (s, [])).2,
       c ≠ .PANIC ∧ c ≠ .BLOCKS := by
-  have key : ∀ (st : Stage) (c : Call), outcome st c ≠ .PANIC ∧ outcome st c ≠ .BLOCKS := by
-    intro st c; cases st <;> cases c <;> simp [outcome]
-  suffices h : ∀ (acc : Stage × List Outcome), (∀ c ∈ acc.2, c ≠ .PANIC ∧ c ≠ .BLOCKS) →
+  have key : ∀ (st : Stage) (c : Call), st.selfListed = true → outcome st c ≠ .PANIC ∧ outcome st c ≠ .BLOCKS := by
+    intro st c; cases st <;> cases c <;> simp [outcome, Stage.selfListed]
+  suffices h : ∀ (acc : Stage × List Outcome), acc.1.selfListed = true → (∀ c ∈ acc.2, c ≠ .PANIC ∧ c ≠ .BLOCKS) →
       ∀ c ∈ (calls.foldl (fun (acc : Stage × List Outcome) oc => match oc with
         | none => (age acc.1, acc.2)
         | some c => (next acc.1 c, acc.2 ++ [outcome acc.1 c])) acc).2, c ≠ .PANIC ∧ c ≠ .BLOCKS by
-    exact h (s, []) (by simp)
+    exact h (s, []) hs (by simp)
   induction calls with
-  | nil => intro acc h; exact h
+  | nil => intro acc _ h; exact h
   | cons oc rest ih =>
-    intro acc h
+    intro acc hl h
     simp only [List.foldl_cons]
-    apply ih
     cases oc with
-    | none => exact h
+    | none => exact ih _ (by simpa [age_selfListed] using hl) h
     | some c =>
+      apply ih _ (by simpa [next_selfListed] using hl)
       intro x hx
       simp only [List.mem_append, List.mem_singleton] at hx
       rcases hx with hx | rfl
       · exact h x hx
-      · exact key acc.1 c
+      · exact key acc.1 c hl
+
+/-- the premise is met by the stage every simulator run starts in -/
+example : Stage.joined.selfListed = true := rfl
+
+/-- **the full statement fails** (known finding C20-selfdenied-localnode): at the stage reached by
+`Create` with a configuration that refuses the node's own address, `LocalNode` panics; the stage
+table is compared with the real calls on every run (`denied:LocalNode=PANIC…`). -/
+theorem C20_api_total_fails_when_self_denied :
+    ∃ s c, outcome s c = .PANIC ∧ s.selfListed = false := ⟨.denied, .localNode, rfl, rfl⟩
+
+/-- every other call is total at the self-denied stages as well (fixed code, known_findings `fixed:`
+C20 c3262bb Leave, 784c1b7 UpdateNode) -/
+theorem C20_self_denied_others_total (s : Stage) (c : Call) (hc : c ≠ .localNode) :
+    outcome s c ≠ .PANIC ∧ outcome s c ≠ .BLOCKS := by
+  cases s <;> cases c <;> simp [outcome] at hc ⊢
 
 /-- **shutdown_idempotent / leave_idempotent** in the stage model -/
 theorem C20_idempotent (s : Stage) :
